@@ -528,6 +528,17 @@ func genStickyPlan(seed uint64, tier string) *Plan {
 		// dialogs established by TCP backends over connections the proxy opened (tcpsticky.go)
 		return genTCPStickyPlan(seed, tier)
 	}
+	if g.chance(6) && borrowDepth == 0 {
+		// the lifetime worlds of C15 (exact clock, re-INVITEs, terminations, subscriptions): probes inside a pin's
+		// lifetime must reach the pinned backend - judged by C15's model, reported under C04's rule
+		borrowDepth++
+		p := genLifetimePlan(seed^0x15c04, tier)
+		borrowDepth--
+		if p.Variant != "tcp-backends" && p.Variant != "sticky" {
+			p.Variant = "lifetime:" + p.Variant
+			return p
+		}
+	}
 	if g.chance(10) {
 		// pins while the backend set changes by name resolution: a dialog stays with its backend also after that
 		// backend was withdrawn from the rotation (the membership world of C19, judged by C04's rule)
@@ -715,6 +726,16 @@ func execSticky(t *testing.T, p *Plan) *Result {
 	}
 	if p.Variant == "tcp-backends" {
 		return execTCPSticky(t, p)
+	}
+	if strings.HasPrefix(p.Variant, "lifetime:") {
+		q := *p
+		q.Variant = strings.TrimPrefix(p.Variant, "lifetime:")
+		r := execLifetime(t, &q)
+		if !p.Replay {
+			p.Tape = q.Tape
+		}
+		r.Judged = r.Stats["judged:C15"]
+		return r
 	}
 	r := &Result{}
 	var d *dlgWorld
